@@ -90,9 +90,15 @@ def gen_check(drv, pid, cfg, info, seed, tier, viol_so_far):
     ev['gen_proofs_s'] = round(time.time() - t0, 1)
     # the small-domain sweeps (generated code against model function) are evaluated on every run: they also cover
     # translated functions about which no lemma is proved yet, and they supply the failing input when a proof breaks
+    # identifiers for the replay texts: method and type names (>= 101, from GenSrc.v) and the canonical field
+    # identifiers 1..20 of MiniGo.v (their real names per struct are in the translator's report)
     ids = {}
     for mm in re.finditer(r'Notation id_(\w+) := (\d+)%positive', open(os.path.join(drv.COQ, 'GenSrc.v')).read()):
         ids[mm.group(2)] = mm.group(1)
+    for k, kind in enumerate(['int', 'bool', 'elem', 'slice', 'nil']):
+        for o in range(4):
+            ids[str(1 + k + 5 * o)] = 'f_%s%d' % (kind, o)
+    field_names = {t: ', '.join('%s=%s' % kv for kv in sorted(fs.items())) for t, fs in (rep.get('fields') or {}).items() if fs}
     outdir = os.path.join(drv.BUILD, pid)
     sw = os.path.join(outdir, 'gensweep.v')
     open(sw, 'w').write('From Verif Require Import Base MiniGo GenSrc GenRep GenSweep.\n'
@@ -113,6 +119,8 @@ def gen_check(drv, pid, cfg, info, seed, tier, viol_so_far):
         ev['failed'] = dict(file=failed, lemma=lemma, at=where)
     common = dict(property=pid, seed=seed, tier=tier, kind='generated-code',
                   lemma_that_no_longer_checks=lemma, at=where, coqc_output=out[-2500:] if failed else None,
+                  sweep_result=('sweeps_%s evaluated: %s disagreeing inputs' % (pid, count)) + (' - generated code and model agree on the whole small domain' if count == 0 else ''),
+                  field_names=field_names,
                   functions=[e['function'] + ' ' + e['source'] for e in ev['functions']],
                   rerun='./check %s' % pid)
     nv = 0
@@ -128,7 +136,7 @@ def gen_check(drv, pid, cfg, info, seed, tier, viol_so_far):
             txt = re.sub(r'(\d+)%positive', lambda x: ids.get(x.group(1), x.group(0)), txt)
             nv += 1
             violation(drv, pid, dict(common, case='gen%d' % k,
-                                     explanation='the MiniGo term generated from the current Go source and the model function the theorems are about disagree on this input (found by the exhaustive small-domain sweep coq/GenSweep.v: sweeps_%s; %d disagreeing inputs in all). d_method = the method, d_recv = the receiver before the call, d_args = the arguments, d_model = what the model says (result, receiver afterwards), d_generated = what the generated code does' % (pid, count),
+                                     explanation='the MiniGo term generated from the current Go source and the model function the theorems are about disagree on this input (found by the exhaustive small-domain sweep coq/GenSweep.v: sweeps_%s; %d disagreeing inputs in all). d_method = the method, d_recv = the receiver before the call, d_args = the arguments, d_model = what the model says (ORet (result, receiver afterwards) / OPanic receiver-left-unchanged), d_generated = what the generated code does (OPanic r: it panics and leaves the receiver as r)' % (pid, count),
                                      failing_input=txt))
     if failed is None:
         txt = ' | '.join(l.rstrip() for l in out.split('\n') if l.strip())
@@ -144,7 +152,7 @@ def gen_check(drv, pid, cfg, info, seed, tier, viol_so_far):
         # a proof about the generated code no longer checks and no input was found on which code and model differ
         nv = 1
         violation(drv, pid, dict(common, case='genproof',
-                                 theorem_or_correspondence='the lemma %s of %s about the code generated from the current Go source no longer checks; the small-domain sweeps (sweeps_%s) and the correspondence run found no input on which generated code and model differ' % (lemma, failed, pid),
+                                 theorem_or_correspondence='the lemma %s (%s) about the code generated from the current Go source no longer checks; the exhaustive small-domain sweeps (sweeps_%s: %d disagreeing inputs, i.e. generated code and model agree on the whole small domain) and the correspondence run found no input on which code and model differ: the property is no longer shown to hold for the code as it is now, rather than shown to fail' % (lemma, where, pid, count),
                                  sweep_output=sout[-800:]), 'no-failing-input-found')
     else:
         nv += 1
